@@ -67,6 +67,38 @@ instance : Elem Rat where
 
 instance {α : Type} [Elem α] : Inhabited α := ⟨Elem.zero⟩
 
+/-! ### dual numbers: element types whose equality is coarser than identity
+
+`Trace<T>`, `Record<T>` and user-defined dual-number types compare (`PartialEq`, `PartialOrd`) by
+their *value* only, while they carry a derivative part.  The documented formulas evaluated over the
+ring of dual numbers `v + d·ε` (`ε² = 0`) give value and derivative of every routine; comparisons
+(`isZero`, `le`) look at the value only, exactly like the Rust types. -/
+
+structure Dual (β : Type) where
+  v : β
+  d : β
+
+instance {β : Type} [Elem β] : Elem (Dual β) where
+  add a b := ⟨a.v + b.v, a.d + b.d⟩
+  sub a b := ⟨a.v - b.v, a.d - b.d⟩
+  mul a b := ⟨a.v * b.v, a.d * b.v + a.v * b.d⟩
+  div a b := ⟨a.v / b.v, (a.d * b.v - a.v * b.d) / (b.v * b.v)⟩
+  neg a := ⟨-a.v, -a.d⟩
+  zero := ⟨Elem.zero, Elem.zero⟩
+  one := ⟨Elem.one, Elem.zero⟩
+  ofNat n := ⟨Elem.ofNat n, Elem.zero⟩
+  parse s := match s.splitOn "~" with
+    | [v, d] => match (Elem.parse v : Option β), (Elem.parse d : Option β) with
+      | some v, some d => some ⟨v, d⟩
+      | _, _ => none
+    | [v] => (Elem.parse v : Option β).map fun v => ⟨v, Elem.zero⟩
+    | _ => none
+  render a := Elem.render a.v ++ "~" ++ Elem.render a.d
+  isZero a := Elem.isZero a.v
+  le a b := Elem.le a.v b.v
+  sqrt a := ⟨Elem.sqrt a.v, a.d / (Elem.ofNat 2 * Elem.sqrt a.v)⟩
+  exp a := ⟨Elem.exp a.v, a.d * Elem.exp a.v⟩
+
 section formulas
 variable {α : Type} [Elem α]
 
@@ -301,6 +333,12 @@ def answer (toks : List String) : String :=
   match toks with
   | routine :: "Fp" :: args => answerAt Fp routine args
   | routine :: "Rat" :: args => answerAt Rat routine args
+  -- value + derivative part: a user-defined dual type, Trace<Fp> (forward mode) and Record<Fp>
+  -- (reverse mode, the directional derivative along the given parts) must all give the dual-number answer
+  | routine :: "DualFp" :: args => answerAt (Dual Fp) routine args
+  | routine :: "TraceFp" :: args => answerAt (Dual Fp) routine args
+  | routine :: "RecordFp" :: args => answerAt (Dual Fp) routine args
+  | routine :: "DualRat" :: args => answerAt (Dual Rat) routine args
   | _ => "bad-op"
 
 end Driver.C19User
